@@ -88,7 +88,8 @@ def gen_cases(tier, seed):
         scal = rnd.choice([None, None, (0.5, 10.0), (2.0, -3.0), (0.1, 0.25), (1.0, 0.0),
                            (1.0, -1024.0), (0.00390625, 0.0), (3.0, 100.0), (1.0, 32768.0)])
         mm = rnd.choice([None, None, None, (None, 1000.0), (-100.0, 500.0), (0.0, 255.0),
-                         (110.0, 620.0), (0.0, 1.0), (None, 65535.0)])
+                         (110.0, 620.0), (0.0, 1.0), (None, 65535.0), (255.0, 0.0),
+                         (500.0, -300.0)])
         cases.append({
             "layout": layout, "shape": shape, "channels": rnd.choice([2, 3, 4]),
             "stored": stored, "target": target, "encoding": enc, "storage": storage,
